@@ -42,5 +42,5 @@ fn main() {
         }
         if content.len() != set.len() || content.len() > prefill as usize + inserted.len() { dup_or_extra += 1; }
     }
-    println!("{{\"trials\":{trials},\"threads\":{threads},\"trials_with_lost_inserts\":{lost_trials},\"lost_elements\":{lost_total},\"len_mismatch_or_extra\":{dup_or_extra},\"first\":{:?}}}", first);
+    println!("{{\"trials\":{trials},\"threads\":{threads},\"trials_with_lost_inserts\":{lost_trials},\"lost_elements\":{lost_total},\"len_mismatch_or_extra\":{dup_or_extra},\"first\":{}}}", match &first { Some(x) => format!("{:?}", x), None => "null".to_string() });
 }
